@@ -801,6 +801,12 @@ def sc_rollaxis(P):
         dims, sizes = SHAPES[nd]
         for ax in list(range(-nd, nd)) + list(dims):
             out.append(('%d-d, rollaxis(%r)' % (nd, ax), lambda dims=dims, sizes=sizes, ax=ax: ([A(P, dims, sizes), ax], {}, OPTS(P))))
+    # every start position before, at and after the axis (start counts positions of the original order; ndim means "after the last")
+    dims, sizes = SHAPES[3]
+    for ax in (0, 1, 2, -1, 'b'):
+        for start in range(-4, 6):
+            out.append(('3-d, rollaxis(%r, %d)' % (ax, start), lambda ax=ax, start=start: ([A(P, dims, sizes), ax, start], {}, OPTS(P))))
+    out.append(('3-d, rollaxis(1, start=3) by keyword', lambda: ([A(P, dims, sizes), 1], {'start': 3}, OPTS(P))))
     return out
 
 
@@ -938,6 +944,8 @@ def label_oracle(sym):
         return inner
     if t[0] == 'call' and isinstance(t[1], Sym) and render(t[1]) in ('np.all', 'np.any') and len(t[2]) == 1 and isinstance(t[2][0], Sym):
         return label_oracle(t[2][0])
+    if t[0] == 'call' and (t[1] if isinstance(t[1], str) else render(t[1])) in ('np.array_equal', 'np.array_equiv') and len(t[2]) == 2:
+        return render(t[2][0]) == render(t[2][1])
     if t[0] == 'op' and t[1] in ('==', '!=') and len(t) == 4:
         a, b = render(t[2]), render(t[3])
         same = a == b
